@@ -161,7 +161,7 @@ func TestVerif_C19Sys(t *testing.T) {
 				}
 				ex, at, span := vk.RateExcess(evs, float64(rate), max(float64(rate), float64(maxMsg)))
 				if ex > 0 {
-					vkind, vdet = "user-rate-exceeded", fmt.Sprintf("%s: %d sessions of ONE user (rate %d B/s) together moved %.0f bytes more than rate x t x 1.01 + one second's worth within an interval of %v ending at t=%v: the allowance is not shared across the user's sessions", name, nsess, rate, ex, span, at.T)
+					vkind, vdet = "user-rate-exceeded", fmt.Sprintf("%s: %d sessions of ONE user (rate %d B/s) together moved %.0f bytes more than (rate x t + one second's worth) x 1.01 within an interval of %v ending at t=%v: the allowance is not shared across the user's sessions", name, nsess, rate, ex, span, at.T)
 					return
 				}
 				var total int64
